@@ -34,7 +34,7 @@ def main():
     os.rmdir(wt)
     rc, o = sh('git -C /repo worktree add -q --detach %s HEAD' % wt)
     try:
-        rc, o = sh('%s %s' % (PY, demo), cwd=wt)
+        rc, o = sh('PYTHONPATH=%s %s %s' % (wt, PY, demo), cwd=wt)
         out['demo_without_patch'] = rc
         rc, o = sh('git apply %s' % patch, cwd=wt)
         out['patch_applies'] = rc == 0
@@ -43,7 +43,7 @@ def main():
         rc, o = sh('%s -m pytest -q -p no:cacheprovider' % PY, cwd=wt)
         out['tests'] = o.strip().splitlines()[-1] if o.strip() else ''
         out['tests_pass'] = rc == 0 and '65 passed' in o
-        rc, o = sh('%s %s' % (PY, demo), cwd=wt)
+        rc, o = sh('PYTHONPATH=%s %s %s' % (wt, PY, demo), cwd=wt)
         out['demo_with_patch'] = rc
         out['demo_output'] = o[-400:]
     finally:
